@@ -1216,6 +1216,8 @@ func (e *Enc) convert(st *State, ins *ssa.Convert) {
 				e.assume(st.reach, Eq(ln, app(SInt, "strlen", xt)))
 			} else {
 				e.assume(st.reach, And(Le(I(0), ln), Le(ln, app(SInt, "strlen", xt))))
+				// a non-empty string has at least one rune
+				e.assume(st.reach, Imp(Lt(I(0), app(SInt, "strlen", xt)), Le(I(1), ln)))
 			}
 			// contents unknown: havoc the fresh base's element array
 			es := sortOf(sl.Elem())
